@@ -38,6 +38,7 @@ def check(run, prog):
     r2_dispatch(ck, prog, run)
     r3_r4_from_angles(ck, prog, run)
     r5_day_frac(ck, prog, run)
+    day_frac_shapes(ck, prog, run)
     run.extra["decided_by"] = ck.how
 
 
@@ -460,6 +461,37 @@ def r5_day_frac(ck, prog, run):
     run.floor("R5", "operand vectors", n, 30)
 
 
+def day_frac_shapes(ck, prog, run):
+    """day_frac on operands of different shapes: the factor / divisor may broadcast the two values to a LARGER shape (a (3,) phase
+    times a (2, 1) factor is a (2, 3) phase), so none of its intermediate updates may be an in-place operation on a smaller array
+    (NumPy refuses those with ValueError, which the multiply branch of __array_ufunc__ would swallow and answer with a single-double
+    Angle)."""
+    f = prog.func("day_frac")
+    K3, K2, K1 = sp.Integer(3), sp.Integer(2), sp.Integer(1)
+    n = 0
+    for s1, s2, sk, kind in (((K3,), (K3,), (K2, K1), "factor"), ((K3,), (K3,), (K2, K1), "divisor"), ((K1,), (K1,), (K3,), "factor"), ((), (), (K3,), "factor"),
+                             ((K3,), (), (K3,), "divisor")):
+        v1 = Num(sp.Symbol("V1", real=True), kind="array" if s1 else "number", shape=s1 or None, isfloat=True, dtype=ExtV("numpy.float64"))
+        v2 = Num(sp.Symbol("V2", real=True), kind="array" if s2 else "number", shape=s2 or None, isfloat=True, dtype=ExtV("numpy.float64"))
+        fk = Num(sp.Symbol("FK", real=True), kind="array", shape=sk, isfloat=True, dtype=ExtV("numpy.float64"))
+        ev = phase_evaluator(prog, PhaseLog())
+        tag = f"day_frac(values of shape {tuple(s1)}/{tuple(s2)}, {kind} of shape {tuple(sk)})"
+        try:
+            r = ev.call(f, [v1, v2], {kind: fk})
+        except Raised as e:
+            ck.same("R3", f.where, tag, "evaluates for operands that broadcast to a larger shape (no in-place update of a smaller intermediate)", False,
+                    found=str(e)[:160], nontrivial=True)
+            n += 1
+            continue
+        except (Unsupported, DimensionError) as e:
+            ck.unk("R3", f.where, tag, "evaluates", str(e)[:200])
+            continue
+        n += 1
+        ck.same("R3", f.where, tag, "evaluates for operands that broadcast to a larger shape (no in-place update of a smaller intermediate)",
+                isinstance(r, TupleV) and len(r.items) == 2, found=str(r)[:100], nontrivial=True)
+    run.floor("R3", "day_frac shape combinations evaluated", n, 4)
+
+
 # ---------------------------------------------------------------------------------------- R3 / R4
 def r3_r4_from_angles(ck, prog, run):
     fa = prog.func("Phase.from_angles")
@@ -627,6 +659,21 @@ def r3_r4_from_angles(ck, prog, run):
         ck.same("R4", fa.where, "from_angles(real, imaginary)", "parts of different kind are refused with ValueError", e.exc_name == "ValueError", found=str(e)[:100])
     except (Unsupported, DimensionError) as e:
         ck.unk("R4", fa.where, "from_angles(real, imaginary)", "refused", str(e)[:160])
+    # ... also when every ELEMENT is pure but the elements are of different kinds ([1j, 2.0]): the array as a whole is mixed
+    from ..extapi import NdArr
+    fci = prog.func("check_imaginary")
+    for label, items in (("[i*a, b]", [sp.I * P1, P2]), ("[a, i*b, i*c]", [P1, sp.I * P2, sp.I * Fv])):
+        arr = NdArr((len(items),), [Num(e_, dtype=ExtV("numpy.complex128")) for e_ in items])
+        arr.dtype = ExtV("numpy.complex128")
+        ev = phase_evaluator(prog, PhaseLog())
+        tag = f"check_imaginary({label}) with a, b, c > 0"
+        try:
+            r = ev.call(fci, [arr], {})
+            ck.same("R4", fci.where, tag, "an array mixing purely real and purely imaginary elements is refused with ValueError", False, found=f"accepted: {str(r)[:80]}", nontrivial=True)
+        except Raised as e:
+            ck.same("R4", fci.where, tag, "an array mixing purely real and purely imaginary elements is refused with ValueError", e.exc_name == "ValueError", found=str(e)[:100], nontrivial=True)
+        except (Unsupported, DimensionError) as e:
+            ck.unk("R4", fci.where, tag, "refused", str(e)[:160])
     # R3: the constructor with two numbers adds (does not drop) the second; scalars of every kind are accepted
     for label, a1, a2 in (("Phase(x)", Num(P1), None), ("Phase(x, y)", Num(P1), Num(P2)), ("Phase(x cycle, y cycle)", Num(P1 * CYCLE, kind="quantity", unit=CYCLE), Num(P2 * CYCLE, kind="quantity", unit=CYCLE))):
         log = PhaseLog()
